@@ -7,7 +7,9 @@ from harness.common import Check
 from translate import models as t_models
 
 THEOREMS = ["C20_ClgnMnist", "C20_ClgnCifar10", "C20_ClgnCifar10Res", "C20_ClgnCifar10Tiny", "C20_ClgnCifar10Mini", "C20_CNN",
-            "C20_Dlgn", "C20_exceptional_scales", "C20_fixed_scale_classes"]
+            "C20_Dlgn", "C20_exceptional_scales", "C20_fixed_scale_classes", "C20_unique_scheme_conv_families",
+            "C20_unique_scheme_Mini_refuted", "C20_unique_scheme_Mini_partial", "C20_unique_scheme_dense_family",
+            "C20_unique_scheme_fixed_classes"]
 TRUSTED = [
     "Coq 8.16.1 kernel/coqc; theorems closed under the global context (lia with Z.div_mod_to_equations; vm_compute on closed spatial sizes)",
     "translator translate/models.py: symbolic construction of every exported class with recording stub layers that bind their "
@@ -99,6 +101,45 @@ def run(ck: Check):
                         ck.disagree("eval output times tau is not an integer count", case, observed=ye.tolist(),
                                     signature={"class": name, "what": "integral"})
                 coq_items.append((coqname, k, shape, shapes, case))
+    # the connection-scheme axis: the real class with connections='unique' constructs and runs exactly where the Coq
+    # admissibility predicate (Model/Shapes.unique_all, proved for every k in Props/C20) says it can
+    scheme_items = []
+    sch = [("ClgnMnist", 1), ("ClgnCifar10Tiny", 1), ("ClgnCifar10Mini", 1), ("Dlgn", 1), ("Dlgn", 2), ("Dlgn", 4), ("Dlgn", 5),
+           ("DlgnMnist", 39), ("DlgnMnist", 40)]
+    if thorough:
+        sch += [("ClgnMnist", 2), ("ClgnCifar10", 1), ("ClgnCifar10Res", 1), ("ClgnCifar10", 2), ("ClgnCifar10Mini", 2), ("ClgnCifar10Tiny", 2),
+                ("Dlgn", 3), ("DlgnCifar10", 307), ("DlgnCifar10", 308)]
+    by_name = {sp[0]: sp for sp in specs}
+    for name, k in sch:
+        _, mk, shape, tau, residual, coqname = by_name[name]
+        for par in (("raw", "walsh") if k <= 2 else ("raw",)):
+            case = {"class": name, "k": k, "parametrization": par, "connections": "unique"}
+            ck.case(case, nontrivial=True, kind="scheme-" + name)
+            torch.manual_seed(ck.seed + k)
+            err = None
+            try:
+                model = mk(k, dict(device="cpu", parametrization=par, connections="unique"))
+                xb = (torch.rand(2, *shape) > 0.5).float()
+                for mode in ("train", "eval"):
+                    model.train(mode == "train")
+                    with torch.no_grad():
+                        y = model(xb)
+                    classes = 4 if name == "Dlgn" else 10
+                    if list(y.shape) != [2, classes] or not torch.isfinite(y).all():
+                        raise ValueError(f"{mode} output of shape {list(y.shape)}")
+            except Exception as e:
+                err = repr(e)[:300]
+            scheme_items.append((coqname, k, case, err))
+    # the same scheme through the convolution's own name for it
+    for name in ("ClgnMnist",):
+        from torchlogix.layers import LogicConv2d
+        for nm_ in ("unique", "random-unique"):
+            ck.case({"layer": "LogicConv2d", "connections": nm_}, kind="scheme-name")
+            try:
+                LogicConv2d(in_dim=6, device="cpu", channels=2, num_kernels=2, tree_depth=2, receptive_field_size=2, connections=nm_)
+            except Exception as e:
+                ck.disagree("a convolution refuses a name of the non-default connection scheme", {"connections": nm_}, observed=repr(e)[:200],
+                            signature={"class": "LogicConv2d", "what": "scheme-name", "connections": nm_})
     # a rare but documented combination of options passed through **llkw: a gradient factor on the padded architectures
     for name, mk, shape, tau, residual, coqname in specs:
         if name not in ("ClgnCifar10", "ClgnCifar10Res", "ClgnMnist", "DlgnMnist"):
@@ -184,11 +225,26 @@ def run(ck: Check):
            "  match ls with [] => [] | x :: r => let s' := match s with Some v => layer_b 3 x v | None => None end in show s' :: trace r s' end.\n")
     for coqname, k, shape, _, _ in coq_items:
         txt += f"Eval vm_compute in trace ({coqname} {k}) (Some (Sp {shape[0]} [{'; '.join(str(v) for v in shape[1:])}])).\n"
+    txt += "Eval vm_compute in [" + "; ".join(f"unique_all_b ({coqname} {k})" for coqname, k, _, _ in scheme_items) + "].\n"
     rc, out, err = ck.coq_eval("c20m", txt)
     if rc != 0:
         ck.broke("correspondence", "kernel evaluation of Model/Shapes", err[-600:])
     else:
-        for (coqname, k, shape, shapes, case), mv in zip(coq_items, coqio.parse_evals(out)):
+        evs = coqio.parse_evals(out)
+        for (coqname, k, case, err_), adm in zip(scheme_items, evs[len(coq_items)]):
+            ck.count("model_vs_impl_scheme_decisions")
+            proved_all_k = case["class"] not in ("Dlgn", "DlgnMnist", "DlgnCifar10", "ClgnCifar10Mini")
+            if err_ is not None and (adm or proved_all_k):
+                ck.disagree("exported model class cannot be built / run with connections='unique' although every layer admits the scheme",
+                            case, observed=err_, signature={"class": case["class"], "what": "construct", "connections": "unique"})
+            elif err_ is not None and case["class"] == "ClgnCifar10Mini":
+                # refuted in the model for every k (C20_unique_scheme_Mini_refuted): the statement fails for this class
+                ck.disagree("ClgnCifar10Mini cannot be built with connections='unique' at any scale: its last dense layer "
+                            "(128 k -> 60 k) is narrower than half its input", case, observed=err_,
+                            signature={"class": "ClgnCifar10Mini", "what": "construct", "connections": "unique", "layer": "dense-128k-60k"})
+            elif err_ is None and not adm:
+                ck.broke("correspondence", "Model/Shapes.unique_all_b", f"{case}: the class constructs although the model says the scheme is not admissible")
+        for (coqname, k, shape, shapes, case), mv in zip(coq_items, evs):
             ck.count("model_vs_impl_shape_traces")
             got = [list(s) for s in shapes]
             if [list(s) for s in mv] != got:
